@@ -32,6 +32,19 @@ func handleJcc(params x86genParams, ctx *CodeGenContext) ([]byte, error) {
 	// pass1 が near 形式としてサイズを数えた分岐は、第 2 オペランド "near" でそれを伝える
 	forceNear := params.OCode.Kind != ocode.OpJMP_FAR && len(params.OCode.Operands) >= 2 && strings.TrimSpace(params.OCode.Operands[1]) == "near"
 
+	// "short#<番号>": pass1 は short 形式 (2 バイト) と数えた。収まらなければ番号を報告する。
+	shortID := -1
+	if params.OCode.Kind != ocode.OpJMP_FAR && len(params.OCode.Operands) >= 2 && strings.HasPrefix(strings.TrimSpace(params.OCode.Operands[1]), "short#") {
+		if id, convErr := strconv.Atoi(strings.TrimPrefix(strings.TrimSpace(params.OCode.Operands[1]), "short#")); convErr == nil {
+			shortID = id
+		}
+	}
+	if shortID >= 0 {
+		if rel := destAddr - (int64(ctx.DollarPosition) + int64(params.MachineCodeLen) + 2); rel < -0x80 || rel > 0x7f {
+			ctx.TooFarBranches = append(ctx.TooFarBranches, shortID)
+		}
+	}
+
 	var machineCode []byte
 	var opcode byte
 
